@@ -7,7 +7,8 @@
   end_scope, the v1 manual reset event as (`sig`, `waiters`)) is step for step Proto/ScopeV2.lean.
   Added here:
     * `request_stop()`  = `scope_.end_scope(); stopSource_.request_stop();`
-    * `cleanup()`       = `request_stop()` followed by `scope_.join()`  — i.e. end_scope runs TWICE
+    * `cleanup()`       = `request_stop()` followed by `scope_.join()`  — i.e. end_scope runs twice;
+                          only the call that finds the scope still open may set the event
     * `complete()`      = `scope_.join()`
     * the attach operation: `refcount_` (1; the stop callback moves it 1→2 around its work; the
       leaf's completion and the stop callback each `fetch_sub(1)`, whoever sees 1 completes the outer
@@ -126,7 +127,7 @@ def evtResume (s : St) (t : Nat) (done : St → St) : Option (Lbl × St) :=
 def stepJoin (s : St) (t : Nat) (j : Nat) : Option (Lbl × St) :=
   let th := getThr s t
   match th.pc with
-  | 21 => some (tau t, goto { s with ended := true } t (if s.count = 0 then 22 else 24))
+  | 21 => some (tau t, goto { s with ended := true } t (if !s.ended && s.count = 0 then 22 else 24))
   | 22 => some (tau t, evtExchange s t 23 (fun z => goto z t 24))
   | 23 => evtResume s t (fun z => goto z t 24)
   | 24 =>
@@ -143,7 +144,8 @@ def stepStop (cfg : Config) (s : St) (t : Nat) (fin : St → Lbl × St) : Option
   let i := th.y
   let o := getOp s i
   match th.pc with
-  | 1 => some (tau t, goto { s with ended := true } t (if s.count = 0 then 2 else 4))   -- end_scope
+  | 1 =>  -- end_scope (sets the event only if this call ended the scope and the count is 0)
+    some (tau t, goto { s with ended := true } t (if !s.ended && s.count = 0 then 2 else 4))
   | 2 => some (tau t, evtExchange s t 3 (fun z => goto z t 4))
   | 3 => evtResume s t (fun z => goto z t 4)
   | 4 =>  -- stopSource_.request_stop(): try_lock_unless_stop_requested(true)
